@@ -64,7 +64,11 @@ def service_case(draw, auto):
     if not auto:
         spacing = max(spacing, modes[mode]['min_spacing'])
     return {'eq': eq, 'topo': topo, 'truth': truth, 'src': src, 'dst': dst, 'mode': mode, 'rel': rel,
-            'spacing': spacing, 'nch': draw(st.integers(4, 40)), 'bidir': draw(st.booleans()), 'cd_cut': cd_cut}
+            'spacing': spacing, 'nch': draw(st.integers(4, 40)), 'bidir': draw(st.booleans()), 'cd_cut': cd_cut,
+            # NLI method of the process-wide simulation parameters: mostly the default GN model, sometimes a GGN method
+            'sim': draw(st.sampled_from([None] * 7 + [{'nli_params': {'method': 'ggn_approx', 'dispersion_tolerance': 4,
+                                                                    'phase_shift_tolerance': 0.1,
+                                                                    'computed_number_of_channels': 3}}]))}
 
 
 def own_penalty(table, value):
@@ -198,7 +202,16 @@ def build_eq(case, base_metric, cd_values=None):
 
 
 def run(case, ctx):
-    netgen.reset_sim_params()
+    netgen.reset_sim_params(case.get('sim'))
+    try:
+        _run(case, ctx)
+    finally:
+        netgen.reset_sim_params()
+
+
+def _run(case, ctx):
+    if case.get('sim'):
+        ctx.label('nli:' + case['sim']['nli_params']['method'])
     auto = case['mode'] is None
     modes = case['eq']['Transceiver'][0]['mode']
     # ---- probe: achievable metric with the first candidate mode (thresholds at 0: always accepted)
